@@ -403,6 +403,9 @@ class Client:
             raise att.ATT_Error(error_code=response.error_code, message=response)
 
         # Compute the final MTU
+        if response.server_rx_mtu < att.ATT_DEFAULT_MTU:
+            logger.warning('invalid server_rx_mtu received, MTU not changed')
+            return self.mtu
         self.mtu = min(mtu, response.server_rx_mtu)
 
         return self.mtu
